@@ -25,7 +25,7 @@ package encoding
 import (
 	"bytes"
 	"encoding/json"
-	"fmt"
+	"strconv"
 	"strings"
 
 	"github.com/danos/encoding/rfc7951"
@@ -57,7 +57,9 @@ func decodeValue(val interface{}) (string, error) {
 			return "false", nil
 		}
 	case float64: // Non-empty Leaf containing number of any sort
-		return fmt.Sprintf("%d", int(typeValue)), nil
+		// Keep any fraction so the type decides: truncating to an int
+		// turned 1.5 into the valid-looking "1".
+		return strconv.FormatFloat(typeValue, 'f', -1, 64), nil
 	case nil: // Empty leaf
 		return "", nil
 	default:
